@@ -43,11 +43,14 @@ CLAIMED = {
             "0, applied power within the individual flex bounds, hence |schedule| <= limit), the final in-band assertion, "
             "the charge flag, the written value, and the run-length round trip of the schedule CSV through "
             "get_schedule_from_csv and the event queue (target, window and every vehicle schedule in force at step t = row "
-            "t, signal <= start) are Lean theorems for all sizes. The flex band itself (a Strategy.step loop on the real "
-            "Battery) is captured from the real run, not modelled. Real generate_schedule runs on generated scenarios and "
+            "t, signal <= start) are Lean theorems for all sizes. The flex band itself (generate_flex_band / "
+            "generate_individual_flex_band: a Strategy.step loop with per-vehicle bookkeeping) is modelled too: its content "
+            "is base -/+ the battery figure and the sums over the vehicles present in that step, a departed vehicle "
+            "contributes nothing, every value lies within the rating, the individual band follows limit events "
+            "(C13_flexband_*; the energy-need theorem is _partial, finding FB1). Real generate_schedule runs on generated scenarios and "
             "grid files (both sign conventions, collective and individual) are compared bit-for-bit per distribute call and "
             "read back through the real Scenario/Events machinery.",
-            "Lean 4 proof (array invariants, run-length round trip) + Float bit-level correspondence on captured calls + read-back oracle",
+            "Lean 4 proof (array invariants, flex-band content, run-length round trip) + Float bit-level correspondence on captured calls and on both flex-band functions + read-back oracle",
             "DESIGN.md §4 C13"),
     "C18": ("Feed-in split (three parts >= 0, priority generation -> V2G -> battery, sum = total feed-in; rounded parts "
             "within half a unit in the last place), one row per reported step with every column the rounding of the named "
@@ -363,11 +366,14 @@ CLAIMED = {
             "0, applied power within the individual flex bounds, hence |schedule| <= limit), the final in-band assertion, "
             "the charge flag, the written value, and the run-length round trip of the schedule CSV through "
             "get_schedule_from_csv and the event queue (target, window and every vehicle schedule in force at step t = row "
-            "t, signal <= start) are Lean theorems for all sizes. The flex band itself (a Strategy.step loop on the real "
-            "Battery) is captured from the real run, not modelled. Real generate_schedule runs on generated scenarios and "
+            "t, signal <= start) are Lean theorems for all sizes. The flex band itself (generate_flex_band / "
+            "generate_individual_flex_band: a Strategy.step loop with per-vehicle bookkeeping) is modelled too: its content "
+            "is base -/+ the battery figure and the sums over the vehicles present in that step, a departed vehicle "
+            "contributes nothing, every value lies within the rating, the individual band follows limit events "
+            "(C13_flexband_*; the energy-need theorem is _partial, finding FB1). Real generate_schedule runs on generated scenarios and "
             "grid files (both sign conventions, collective and individual) are compared bit-for-bit per distribute call and "
             "read back through the real Scenario/Events machinery.",
-            "Lean 4 proof (array invariants, run-length round trip) + Float bit-level correspondence on captured calls + read-back oracle",
+            "Lean 4 proof (array invariants, flex-band content, run-length round trip) + Float bit-level correspondence on captured calls and on both flex-band functions + read-back oracle",
             "DESIGN.md §4 C13"),
     "C18": ("Feed-in split (three parts >= 0, priority generation -> V2G -> battery, sum = total feed-in; rounded parts "
             "within half a unit in the last place), one row per reported step with every column the rounding of the named "
